@@ -372,10 +372,17 @@ func (m *ConnectMessage) Decode(src []byte) (int, error) {
 	}
 	total += n
 
+	// Nothing behind the end of this packet belongs to it.
+	src = src[:total+int(m.remlen)]
+
 	if n, err = m.decodeMessage(src[total:]); err != nil {
 		return total + n, err
 	}
 	total += n
+
+	if total != len(src) {
+		return total, fmt.Errorf("connect/Decode: %d unexpected bytes after the last field", len(src)-total)
+	}
 
 	m.dirty = false
 
@@ -469,7 +476,7 @@ func (m *ConnectMessage) encodeMessage(dst []byte) (int, error) {
 
 	// According to the 3.1 spec, it's possible that the usernameFlag is set,
 	// but the username string is missing.
-	if m.UsernameFlag() && len(m.username) > 0 {
+	if m.UsernameFlag() {
 		n, err = writeLPBytes(dst[total:], m.username)
 		total += n
 		if err != nil {
@@ -479,7 +486,7 @@ func (m *ConnectMessage) encodeMessage(dst []byte) (int, error) {
 
 	// According to the 3.1 spec, it's possible that the passwordFlag is set,
 	// but the password string is missing.
-	if m.PasswordFlag() && len(m.password) > 0 {
+	if m.PasswordFlag() {
 		n, err = writeLPBytes(dst[total:], m.password)
 		total += n
 		if err != nil {
@@ -498,6 +505,10 @@ func (m *ConnectMessage) decodeMessage(src []byte) (int, error) {
 	total += n
 	if err != nil {
 		return total, err
+	}
+
+	if len(src[total:]) < 2 {
+		return total, fmt.Errorf("connect/decodeMessage: Insufficient buffer size. Expecting %d, got %d", 2, len(src[total:]))
 	}
 
 	m.version = src[total]
@@ -609,14 +620,14 @@ func (m *ConnectMessage) msglen() int {
 	// Add the username length
 	// According to the 3.1 spec, it's possible that the usernameFlag is set,
 	// but the user name string is missing.
-	if m.UsernameFlag() && len(m.username) > 0 {
+	if m.UsernameFlag() {
 		total += 2 + len(m.username)
 	}
 
 	// Add the password length
 	// According to the 3.1 spec, it's possible that the passwordFlag is set,
 	// but the password string is missing.
-	if m.PasswordFlag() && len(m.password) > 0 {
+	if m.PasswordFlag() {
 		total += 2 + len(m.password)
 	}
 
